@@ -1,6 +1,7 @@
 #!/usr/bin/env python3
 """Apply each behaviour-preserving refactoring to /repo, run every quick check, expect silence."""
 import json, os, subprocess, sys
+ENV = dict(os.environ, TF_OUT="/tmp/tfout-scratch")
 root = sys.argv[1]; only = set(sys.argv[2:])
 ALL = ["C%02d" % i for i in range(1, 21)]
 res = {}
@@ -16,7 +17,7 @@ for d in sorted(os.listdir(root)):
     fired = {}
     try:
         for c in ALL:
-            r = subprocess.run(["/verif/check", c], capture_output=True, text=True)
+            r = subprocess.run(["/verif/check", c], capture_output=True, text=True, env=ENV)
             if r.returncode != 0:
                 lines = [l.strip() for l in r.stdout.splitlines() if l.startswith("  ")]
                 fired[c] = lines[:6]
